@@ -267,7 +267,7 @@ func Check04(c CaseHist, r *core.Rec) {
 		before := ObsOf(iu)
 		switch op.Kind {
 		case "set":
-			ApplySetter(iu, op.Setter, string(op.Value))
+			ApplySetter(iu, op.Setter, valueFor(iu, op))
 			r.Class("op:set-" + spec.SetterNames[op.Setter])
 		case "resolve":
 			v, err := iu.Parse(string(op.Value))
